@@ -3,7 +3,7 @@
    proofs/SerialProofs.v; models in model/ProtoWire.v, model/Serial.v,
    model/SerialTables.v (enum tables extracted from the Go switch statements). *)
 From Coq Require Import List NArith Bool.
-From Tink Require Import Bytes ProtoWire ProtoWireProofs SerialTables Serial SerialProofs.
+From Tink Require Import Bytes ProtoWire ProtoWireProofs SerialTables Serial SerialProofs SerialNormProofs.
 Import ListNotations.
 Open Scope N_scope.
 
@@ -157,6 +157,27 @@ Theorem C12_registered_types_tables_ok :
     variant_ok T k.
 Proof. exact registered_variant_ok. Qed.
 Print Assumptions C12_registered_types_tables_ok.
+
+(* The big-integer normalisation that parse-then-serialize applies (EC
+   coordinates / scalars to cs+1 bytes, RSA integers stripped and re-padded) is
+   idempotent, for every type. *)
+Theorem C12_bigint_normalisation_idempotent :
+  forall k s m m', normalise k s m = Some m' -> normalise k s m' = Some m'.
+Proof. exact normalise_idem. Qed.
+Print Assumptions C12_bigint_normalisation_idempotent.
+
+(* For every registered type and ANY serialisation s the parser accepts
+   (non-canonical wire bytes, big integers with extra or missing leading zeros,
+   LEGACY prefix, ...): the re-serialisation s' parses to the same key again, so
+   every further serialisation is byte-identical to s'. *)
+Theorem C12_reserialization_fixed_point :
+  forall url sch T s k s',
+    ktype_of url sch = Some T -> wf_schema sch = true ->
+    parse_key T s = Some k -> serialize_key T k = Some s' ->
+    N.of_nat (length (ks_value s')) < 2 ^ 64 ->
+    parse_key T s' = Some k.
+Proof. exact reserialization_fixed_point. Qed.
+Print Assumptions C12_reserialization_fixed_point.
 
 (* Parameters <-> key template.  For JWT types the premise excludes the
    CustomKID strategy: see the next theorem. *)
